@@ -177,6 +177,18 @@ def discharge(ob: Obligation, use_cvc5: bool = True, check_vacuity: bool = True)
         s.set('random_seed', 0)
     if r == z3.unknown:
         r = s.check()
+    if r == z3.unknown and ob.timeout_ms > 4000:
+        # last resort against a loaded machine (timeouts are wall-clock): a fresh solver, other seeds, three times the
+        # budget - a verdict of sat/unsat is final whenever it is reached, `unknown` stays undecided (exit 2)
+        s2 = z3.Solver()
+        s2.add(*s.assertions())
+        for seed in (101, 5):
+            s2.set('timeout', 3 * ob.timeout_ms)
+            s2.set('random_seed', seed)
+            r = s2.check()
+            if r != z3.unknown:
+                s = s2
+                break
     ms = (time.time() - t0) * 1000
     if r == z3.unsat:
         return Result(ob, 'discharged', 'z3', ms, vacuous=vac)
